@@ -661,6 +661,15 @@ class Interp:
                 cand = [x for x in p["pats"] if self.match_pat(x, v, {}) != False]
                 if len(cand) == 1:
                     self.assume_pat(cand[0], v, True)
+                elif cand:
+                    # `A(..) | B(..)`: the value is one of these variants
+                    def var_of(x):
+                        while x.get("k") in ("Deref", "Bind") and x.get("sub"):
+                            x = x["sub"]
+                        return x.get("variant") if x.get("k") == "Variant" else None
+                    names = [var_of(x) for x in cand]
+                    if all(names) and self.variant_of(v) is None:
+                        self.assume["variantin:" + vstr(v)] = tuple(sorted(set(names)))
             return
         if k == "Const":
             self.assume["eq:%s:%s" % (vstr(v), T.pat_str(p))] = holds
